@@ -1,17 +1,36 @@
 (* Spec/PatSem.v - what a pattern of the documented syntax MEANS, as a structural semantics over the AST of
-   Spec/PatSyntax.v, with no program counter and no atoms: [den items slot cursor] is [Some log] when the byte layout at
-   [cursor] satisfies the items, where [log] lists the captures (slot, value) in order of appearance, and [None] otherwise.
-   This file covers the fragment without braces and alternatives (theorem 3a); for those [den] answers None.
+   Spec/PatSyntax.v, with no program counter and no atoms: [den items slot D cursor] is [Some (log, c)] when the byte layout
+   at [cursor] satisfies the items and then [D] (the meaning of what follows them in the enclosing group) is satisfied;
+   [log] lists the captures (slot, value) in order of appearance, [c] is the cursor where the enclosing group ended.
 
    Conventions (DESIGN.md section 7, C11): a range skip [a-b] skips a <= k < b bytes (F35), the least k for which the
-   REST of the pattern matches, and never beyond the end of the readable bytes at the cursor; cursors are u32 and wrap;
-   @k tests divisibility by 2^k (k >= 32: by 2^32); slots are numbered in order of appearance. *)
+   REST OF THE ENCLOSING GROUP matches, and never beyond the end of the readable bytes at the cursor; cursors are u32 and
+   wrap; @k tests divisibility by 2^k (k >= 32: by 2^32). GROUPS ARE ATOMIC: a brace sub-pattern and every alternative
+   match on their own (continuation [dend]) and are not re-entered if what follows fails. A brace sub-pattern is matched
+   at the jump target and matching resumes at the byte after the jump operand; alternatives are tried left to right and
+   matching resumes where the chosen alternative ended. Slots are numbered in order of appearance; every alternative
+   starts numbering where the group started, numbering continues after the group from the maximum. *)
 From PV.Model Require Export Machine Pattern Exec.
 From PV.Spec Require Export PatSyntax.
 
 Definition wlog := list (N * N).
 (* the save array after the captures of a log have been stored (slots beyond the array are dropped) *)
 Definition apply_log (lg : wlog) (save : list N) : list N := fold_left (fun sv p => set_slot sv (fst p) (snd p)) lg save.
+
+(* the number of save slots an item takes: a group takes what its largest alternative takes *)
+Fixpoint slots_of (it : item) : N :=
+  match it with
+  | ISave | IRead _ | IZero => 1
+  | ISub _ sub => fold_right (fun x n => slots_of x + n) 0 sub
+  | IAlt a more => fold_right N.max 0 (map (fun l => fold_right (fun x n => slots_of x + n) 0 l) (a :: more))
+  | _ => 0
+  end.
+Definition nslots (l : list item) : N := fold_right (fun x n => slots_of x + n) 0 l.
+
+(* the answer of the semantics: the write log and the cursor where the enclosing group ended *)
+Definition dres := option (wlog * N).
+Definition dend : N -> dres := fun c => Some ([], c).
+Definition dpre (lg1 : wlog) (r : dres) : dres := match r with Some (lg, c) => Some (lg1 ++ lg, c) | None => None end.
 
 Section Den.
   Variable sc : scan.
@@ -30,15 +49,22 @@ Section Den.
   Definition read_size (r : rkind) : N := match r with RI8 | RU8 => 1 | RI16 | RU16 => 2 | RI32 | RU32 => 4 end.
   Definition read_value (r : rkind) (x : N) : N := match r with RI8 => sext 8 x | RI16 => sext 16 x | _ => x end.
   (* the least k in [k0, k0 + n) for which the rest matches at base + k *)
-  Fixpoint first_match (D : N -> option wlog) (base : N) (n : nat) (k : N) : option wlog :=
+  Fixpoint first_match {A} (D : N -> option A) (base : N) (n : nat) (k : N) : option A :=
     match n with
     | O => None
     | S n' => match D (wadd32 base k) with Some lg => Some lg | None => first_match D base n' (k + 1) end
     end.
-  Definition slots_of (it : item) : N := match it with ISave | IRead _ | IZero => 1 | _ => 0 end.
+  Definition jump_size (j : jkind) : N := match j with J1 => 1 | J4 => 4 | JP => sc_va_bytes sc end.
 
-  (* one item, [D] = the meaning of what follows it *)
-  Definition den_step (it : item) (s : N) (D : N -> option wlog) (cur : N) : option wlog :=
+  (* the first alternative that matches on its own *)
+  Definition first_alt {A B} (f : A -> option B) : list A -> option B :=
+    fix go (ls : list A) : option B :=
+      match ls with [] => None | l :: t => match f l with Some r => Some r | None => go t end end.
+
+  (* one item at slot [s]; [D] = the meaning of what follows it in the enclosing group *)
+  Fixpoint den_item (it : item) (s : N) (D : N -> dres) (cur : N) {struct it} : dres :=
+    let seq := fix seq (l : list item) (s : N) (D : N -> dres) {struct l} : N -> dres :=
+      match l with [] => D | x :: t => den_item x s (seq t (s + slots_of x) D) end in
     match it with
     | IByte b => match match_bytes [b] cur with Some c => D c | None => None end
     | IStr bs => match match_bytes bs cur with Some c => D c | None => None end
@@ -50,24 +76,35 @@ Section Den.
       | None => None
       | Some slen => first_match D c (N.to_nat (N.min (b - a) slen)) 0
       end
-    | ISave => option_map (cons (s, cur)) (D cur)
+    | ISave => dpre [(s, cur)] (D cur)
     | IRead r =>
       match sc_read sc (read_size r) cur with
-      | Some x => option_map (cons (s, read_value r x)) (D (wadd32 cur (read_size r)))
+      | Some x => dpre [(s, read_value r x)] (D (wadd32 cur (read_size r)))
       | None => None
       end
-    | IZero => option_map (cons (s, 0)) (D cur)
+    | IZero => dpre [(s, 0)] (D cur)
     | IAlign k => if cur mod 2 ^ (N.min k 32) =? 0 then D cur else None
     | IJump j => match jump_target j cur with Some c => D c | None => None end
-    | ISub _ _ | IAlt _ _ => None
+    | ISub j sub =>
+      match jump_target j cur with
+      | Some t => match seq sub s dend t with
+                  | Some (lg1, _) => dpre lg1 (D (wadd32 cur (jump_size j)))
+                  | None => None
+                  end
+      | None => None
+      end
+    | IAlt a more =>
+      match first_alt (fun l => seq l s dend cur) (a :: more) with
+      | Some (lg1, c1) => dpre lg1 (D c1)
+      | None => None
+      end
     end.
-  Fixpoint den (l : list item) (s : N) : N -> option wlog :=
-    match l with
-    | [] => fun _ => Some []
-    | it :: t => den_step it s (den t (s + slots_of it))
-    end.
+  Definition den : list item -> N -> (N -> dres) -> N -> dres :=
+    fix seq (l : list item) (s : N) (D : N -> dres) {struct l} : N -> dres :=
+      match l with [] => D | x :: t => den_item x s (seq t (s + slots_of x) D) end.
   (* the whole pattern: slot 0 is the cursor where the match was attempted *)
-  Definition den_top (l : list item) (cur : N) : option wlog := option_map (cons (0, cur)) (den l 1 cur).
+  Definition den_top (l : list item) (cur : N) : option wlog :=
+    match den l 1 dend cur with Some (lg, _) => Some ((0, cur) :: lg) | None => None end.
 End Den.
 
 (* what is assumed of a Scan implementation: reads of n bytes are n-byte values, a readable byte does not sit at the last
@@ -81,3 +118,48 @@ Definition scan_wf (sc : scan) : Prop :=
 Definition solid_item (it : item) : bool :=
   match it with IByte _ | ISave | IRead _ | IZero | IAlign _ | IJump _ => true | IStr (_ :: _) => true | _ => false end.
 Definition ends_solid (l : list item) : bool := match rev l with [] => true | it :: _ => solid_item it end.
+
+(* ---------------------------------------------------------------- the known class F34
+   The implementation compiles the LAST alternative of a group inline (no Case/Break around it), so a range skip directly
+   in it (or in the last alternative of a group that ends it, and so on) retries against what follows the closing
+   parenthesis - the one place where groups are not atomic. [tl] = nothing follows the sequence in its invocation
+   (top level, brace sub-pattern, every alternative but the last): there inline and atomic coincide. *)
+Definition direct_range (l : list item) : bool := existsb (fun it => match it with IRange _ _ => true | _ => false end) l.
+Fixpoint pick_last (x : bool * bool) (t : list (bool * bool)) : bool :=
+  match t with [] => snd x | y :: t' => fst x || pick_last y t' end.
+Fixpoint f34_item (tl : bool) (it : item) {struct it} : bool :=
+  let seq := fix seq (tl : bool) (l : list item) {struct l} : bool :=
+    match l with [] => false | x :: t => f34_item (tl && match t with [] => true | _ :: _ => false end) x || seq tl t end in
+  match it with
+  | ISub _ sub => seq true sub
+  | IAlt a more =>
+    let f := fun l => (seq true l, seq tl l || (negb tl && direct_range l)) in
+    pick_last (f a) (map f more)
+  | _ => false
+  end.
+Definition f34_seq : bool -> list item -> bool :=
+  fix seq (tl : bool) (l : list item) {struct l} : bool :=
+    match l with [] => false | x :: t => f34_item (tl && match t with [] => true | _ :: _ => false end) x || seq tl t end.
+Definition range_skip_in_last_alternative_with_suffix (a : list item) : bool := f34_seq true a.
+
+(* the fragment "flat + braces": no alternatives at any depth (never in the class) *)
+Fixpoint noalt_item (it : item) : bool :=
+  match it with IAlt _ _ => false | ISub _ sub => forallb noalt_item sub | _ => true end.
+Definition noalt (l : list item) : bool := forallb noalt_item l.
+
+(* the save-array statement of theorem 3b: the array keeps its length and every slot the log writes holds what the log
+   applied to the given array holds there (its last value for that slot); slots the successful path does not write are
+   unconstrained - failed alternatives and failed skip candidates leave their writes behind *)
+Definition log_ok (lg : wlog) (save save' : list N) : Prop :=
+  length save' = length save /\
+  forall i, In i (map fst lg) -> nth_error save' (N.to_nat i) = nth_error (apply_log lg save) (N.to_nat i).
+
+(* the compiler output is not trimmed: its last atom constrains something *)
+Definition untrimmed (a : list item) : bool :=
+  match last_atom (c_res (comp_seq a cinit)) with Some x => negb (is_redundant x) | None => true end.
+
+(* ... or the only atoms the parser trims are the returns of closing braces (a pattern that ends in one or more '}' whose
+   innermost sub-pattern ends in an atom that constrains something); weaker than [untrimmed] *)
+Fixpoint strip_pops_rev (l : list atom) : list atom := match l with Pop :: t => strip_pops_rev t | _ => l end.
+Definition trims_only_braces (a : list item) : bool :=
+  match strip_pops_rev (rev (c_res (comp_seq a cinit))) with x :: _ => negb (is_redundant x) | [] => true end.
